@@ -14,6 +14,7 @@ from typing import (
     Dict,
     cast,
     Set,
+    FrozenSet,
 )
 
 import icontract._represent
@@ -660,9 +661,14 @@ def resolve_kwdefaults(sign: inspect.Signature) -> Dict[str, Any]:
 # contract checking is already in progress.
 #
 # The key refers to the id() of the function (preconditions and postconditions) or instance (invariants).
+#
+# The value is immutable: a wrapper binds a new value in the current context and restores the value it found
+# on exit. (A mutable set stored in the variable would be shared by reference with all the contexts copied
+# from the current one, *e.g.*, with the asyncio tasks or ``asyncio.to_thread``, so that concurrent callers
+# would disable each other's checks.)
 _IN_PROGRESS = contextvars.ContextVar(
     "_IN_PROGRESS", default=None
-)  # type: contextvars.ContextVar[Optional[Set[int]]]
+)  # type: contextvars.ContextVar[Optional[FrozenSet[int]]]
 
 
 def decorate_with_checker(func: CallableT) -> CallableT:
@@ -738,8 +744,7 @@ def decorate_with_checker(func: CallableT) -> CallableT:
             # by reference.
             in_progress = _IN_PROGRESS.get()
             if in_progress is None:
-                in_progress = set()
-                _IN_PROGRESS.set(in_progress)
+                in_progress = frozenset()
 
             # If the wrapper is already checking the contracts for the wrapped function, avoid a recursive loop
             # by skipping any subsequent contract checks for the same function.
@@ -751,7 +756,7 @@ def decorate_with_checker(func: CallableT) -> CallableT:
 
             # Use try-finally instead of ExitStack for performance.
             try:
-                in_progress.add(id_func)
+                _IN_PROGRESS.set(in_progress | {id_func})
 
                 (preconditions, snapshots, postconditions) = _unpack_pre_snap_posts(
                     wrapper
@@ -786,9 +791,9 @@ def decorate_with_checker(func: CallableT) -> CallableT:
                 # Ideally, we would catch any exception here and strip the checkers from the traceback.
                 # Unfortunately, this can not be done in Python 3, see
                 # https://stackoverflow.com/questions/44813333/how-can-i-elide-a-function-wrapper-from-the-traceback-in-python-3
-                in_progress.discard(id_func)
+                _IN_PROGRESS.set(in_progress)
                 result = await func(*args, **kwargs)
-                in_progress.add(id_func)
+                _IN_PROGRESS.set(in_progress | {id_func})
 
                 if postconditions:
                     resolved_kwargs["result"] = result
@@ -801,7 +806,7 @@ def decorate_with_checker(func: CallableT) -> CallableT:
 
                 return result
             finally:
-                in_progress.discard(id_func)
+                _IN_PROGRESS.set(in_progress)
 
     else:
 
@@ -817,8 +822,7 @@ def decorate_with_checker(func: CallableT) -> CallableT:
             # by reference.
             in_progress = _IN_PROGRESS.get()
             if in_progress is None:
-                in_progress = set()
-                _IN_PROGRESS.set(in_progress)
+                in_progress = frozenset()
 
             # If the wrapper is already checking the contracts for the wrapped function, avoid a recursive loop
             # by skipping any subsequent contract checks for the same function.
@@ -830,7 +834,7 @@ def decorate_with_checker(func: CallableT) -> CallableT:
 
             # Use try-finally instead of ExitStack for performance.
             try:
-                in_progress.add(id_func)
+                _IN_PROGRESS.set(in_progress | {id_func})
 
                 (preconditions, snapshots, postconditions) = _unpack_pre_snap_posts(
                     wrapper
@@ -867,9 +871,9 @@ def decorate_with_checker(func: CallableT) -> CallableT:
                 # Ideally, we would catch any exception here and strip the checkers from the traceback.
                 # Unfortunately, this can not be done in Python 3, see
                 # https://stackoverflow.com/questions/44813333/how-can-i-elide-a-function-wrapper-from-the-traceback-in-python-3
-                in_progress.discard(id_func)
+                _IN_PROGRESS.set(in_progress)
                 result = func(*args, **kwargs)
-                in_progress.add(id_func)
+                _IN_PROGRESS.set(in_progress | {id_func})
 
                 if postconditions:
                     resolved_kwargs["result"] = result
@@ -884,7 +888,7 @@ def decorate_with_checker(func: CallableT) -> CallableT:
 
                 return result
             finally:
-                in_progress.discard(id_func)
+                _IN_PROGRESS.set(in_progress)
 
     # Copy __doc__ and other properties so that doctests can run
     functools.update_wrapper(wrapper=wrapper, wrapped=func)
@@ -1072,15 +1076,14 @@ def _decorate_with_invariants(func: CallableT, is_init: bool) -> CallableT:
             # by reference.
             in_progress = _IN_PROGRESS.get()
             if in_progress is None:
-                in_progress = set()
-                _IN_PROGRESS.set(in_progress)
+                in_progress = frozenset()
 
             id_instance = id(instance)
             if id_instance in in_progress:
                 # The instance is already under construction (e.g., ``super().__init__(...)``).
                 return func(*args, **kwargs)
 
-            in_progress.add(id_instance)
+            _IN_PROGRESS.set(in_progress | {id_instance})
 
             # ExitStack is not used here due to performance.
             try:
@@ -1091,7 +1094,7 @@ def _decorate_with_invariants(func: CallableT, is_init: bool) -> CallableT:
 
                 return result
             finally:
-                in_progress.discard(id_instance)
+                _IN_PROGRESS.set(in_progress)
 
     else:
         # (mristin, 2021-02-16)
@@ -1133,14 +1136,13 @@ def _decorate_with_invariants(func: CallableT, is_init: bool) -> CallableT:
                 # by reference.
                 in_progress = _IN_PROGRESS.get()
                 if in_progress is None:
-                    in_progress = set()
-                    _IN_PROGRESS.set(in_progress)
+                    in_progress = frozenset()
 
                 # The following dunder indicates whether another invariant is currently being checked. If so,
                 # we need to suspend any further invariant check to avoid endless recursion.
                 id_instance = id(instance)
                 if id_instance not in in_progress:
-                    in_progress.add(id_instance)
+                    _IN_PROGRESS.set(in_progress | {id_instance})
                 else:
                     # Do not check any invariants to avoid endless recursion.
                     return await func(*args, **kwargs)
@@ -1157,7 +1159,7 @@ def _decorate_with_invariants(func: CallableT, is_init: bool) -> CallableT:
 
                     return result
                 finally:
-                    in_progress.discard(id_instance)
+                    _IN_PROGRESS.set(in_progress)
 
         else:
 
@@ -1190,12 +1192,11 @@ def _decorate_with_invariants(func: CallableT, is_init: bool) -> CallableT:
                 # by reference.
                 in_progress = _IN_PROGRESS.get()
                 if in_progress is None:
-                    in_progress = set()
-                    _IN_PROGRESS.set(in_progress)
+                    in_progress = frozenset()
 
                 id_instance = id(instance)
                 if id_instance not in in_progress:
-                    in_progress.add(id_instance)
+                    _IN_PROGRESS.set(in_progress | {id_instance})
                 else:
                     # Do not check any invariants to avoid endless recursion.
                     return func(*args, **kwargs)
@@ -1212,7 +1213,7 @@ def _decorate_with_invariants(func: CallableT, is_init: bool) -> CallableT:
 
                     return result
                 finally:
-                    in_progress.discard(id_instance)
+                    _IN_PROGRESS.set(in_progress)
 
     functools.update_wrapper(wrapper=wrapper, wrapped=func)
 
